@@ -107,6 +107,10 @@ class Unit:
         self.name = name
         self.path = os.path.join(VERUS_DIR, name + ".rs")
         self.template = read(self.path)
+        # `//@ include <file>`: textual inclusion of shared specification text (expanded before anything else)
+        def _inc(m):
+            return read(os.path.join(VERUS_DIR, m.group(1).strip()))
+        self.template = re.sub(r"(?m)^[ \t]*//@ include (.+)$", _inc, self.template)
         self.props = []
         self.norm = {}
         self.fns = []
